@@ -7,6 +7,7 @@ Import ListNotations.
 Record NumLaws {R : Type} (N : Num R) : Prop := mkLaws {
   L_ring : ring_theory (zero N) (one N) (add N) (mul N) (sub N) (fun x => sub N (zero N) x) (@eq R);
   L_div : forall x y, y <> zero N -> mul N (div N x y) y = x;
+  L_mul_cancel : forall x z y, y <> zero N -> mul N x y = mul N z y -> x = z;
   L_nsum : forall l, nsum N l = fold_right (add N) (zero N) l;
   L_psum : forall l, psum N l = fold_left (add N) l (zero N);
   L_of_Z_add : forall a b, of_Z N (a + b) = add N (of_Z N a) (of_Z N b);
@@ -56,6 +57,8 @@ Proof.
   constructor; simpl.
   - constructor; intros; try ring.
   - intros x y Hy. field. exact Hy.
+  - intros x z y Hy H. assert (E : (x * y / y = z * y / y)%Qc) by (rewrite H; reflexivity).
+    replace (x * y / y)%Qc with x in E by (field; exact Hy). replace (z * y / y)%Qc with z in E by (field; exact Hy). exact E.
   - reflexivity.
   - reflexivity.
   - intros a b. unfold Qc_of_Z. apply Qc_is_canon. unfold Qcplus, Q2Qc; cbn [this].
